@@ -205,6 +205,15 @@ class Ctx:
         parent = prog.bodies.get(parent_path)
         if parent is None:
             return
+        inl = getattr(prog, "inlined", {}).get(parent_path)
+        if inl:
+            # the helper that builds this closure was expanded into its caller(s): the closure is constructed there
+            # (with one caller the context is that caller's; with several, none is assumed)
+            if len(inl) != 1:
+                return
+            parent = prog.bodies.get(next(iter(inl)))
+            if parent is None:
+                return
         pctx = Ctx(prog, parent)
         pan, psy = pctx.an, pctx.sy
         site = None
